@@ -305,6 +305,49 @@ def self_default(F, rep, rid, only=None):
         raise AnalysisBroken("%s: only %d member-filling keywords found in colvar::cvc::init" % (rid, n))
 
 
+def r9(F, rep):
+    rep.rule("C20-R9", "what a script query returns about the module is reset with the objects it describes: every data member of "
+                       "colvarmodule that a script command reads is cleared or assigned in colvarmodule::reset() (or in a "
+                       "member function it calls) -- after `cv reset` no query reports objects or energies of the previous "
+                       "configuration")
+    from .rules_c10 import lvalue_writes
+    fields = {}
+    for f in F.funcs.values():
+        if not (f.name or "").startswith("cvscript_"):
+            continue
+        for m in f.walk():
+            if m["k"] == "MemberExpr" and (m.get("q") or "").startswith("colvarmodule::") and m.get("dk") == "Field":
+                fields.setdefault(m["q"], f.name)
+    if len(fields) < 3:
+        raise AnalysisBroken("C20-R9: only %d module members read by script commands found" % len(fields))
+    r = F.one("colvarmodule::reset")
+    todo, seen = [r], set()
+    touched = set()
+    while todo:
+        g = todo.pop()
+        if g.m in seen:
+            continue
+        seen.add(g.m)
+        for w, t in lvalue_writes(g):
+            ts = X.strip(t)
+            while ts["k"] != "MemberExpr" and X.kids(ts):
+                ts = X.strip(X.kids(ts)[0])
+            if ts["k"] == "MemberExpr" and ts.get("q"):
+                touched.add(ts["q"])
+        for c in X.calls(g):
+            if c["k"] == "CXXMemberCallExpr" and X.callee_name(c) in ("clear", "resize", "assign") and X.receiver(c) is not None:
+                rr = X.strip(X.receiver(c))
+                if rr["k"] == "MemberExpr" and rr.get("q"):
+                    touched.add(rr["q"])
+            h = F.funcs.get(c.get("callee"))
+            if h is not None and h.cls == "colvarmodule" and len(seen) < 12:
+                todo.append(h)
+    for q in sorted(fields):
+        ok = q in touched
+        rep.add("C20-R9", "reset|%s" % q, r.loc(), "`%s` (read by %s) is %s by colvarmodule::reset()" % (q.split("::")[-1], fields[q], "re-initialised" if ok else "NOT touched"), ok,
+                detail="after `cv reset` the script still reports the value left by the deleted objects", func=r.q)
+
+
 def run(F, rep, tier):
     r1(F, rep)
     r2(F, rep)
@@ -325,6 +368,7 @@ def run(F, rep, tier):
     rep.rule("C20-R6", "atomic gradients returned by `getgradients` include the fit term exactly when the forces do: "
                        "cvc::collect_gradients() reads fit_gradients under f_ag_fit_gradients and under no other feature "
                        "(a group fitted on itself carries the term too; f_ag_fitting_group only selects which group)")
+    r9(F, rep)
     self_default(F, rep, "C20-R7")
     from .rules_c13 import unique_rank
     unique_rank(F, rep, "C20-R8")
